@@ -273,6 +273,7 @@ def do_check(pid, tier, seed, args, t0):
         "undecided": undecided,
         "bounded": bounded_out,
         "witness_checks": wit["count"],
+        "executor_cpython_crosscheck": wit.get("crosscheck", {}),
         "samples": samples + wit["samples"][:2],
         "explanation": getattr(M, "EXPLANATION", "") or (
             f"{n_dis} of {n_obl} obligations generated from the current source discharged; "
@@ -428,13 +429,20 @@ def handle_refuted(pid, M, rep, ob, known, violations, known_hits, small=None, k
 
 def run_witnesses(pid, M, contracts, seed=0, tier="quick"):
     """Evaluates every contract's witnesses on the real code (one subprocess)."""
-    out = {"count": 0, "failures": [], "errors": [], "samples": []}
+    out = {"count": 0, "failures": [], "errors": [], "samples": [], "crosscheck": {"agree": 0, "skipped": 0, "differ": 0}}
     if not any(c.witness or c.options.get("samples") for c in contracts):
         return out
     p = subprocess.run([sys.executable, "-m", "pyvc.witness", M.__name__, str(seed), tier], capture_output=True, text=True,
                        cwd=HERE, env=_env(), timeout=6000)
     got = False
     for line in p.stdout.splitlines():
+        if line.startswith("CROSSCHECK "):
+            r = json.loads(line[len("CROSSCHECK "):])
+            out["crosscheck"][r["verdict"]] = out["crosscheck"].get(r["verdict"], 0) + 1
+            if r["verdict"] == "differ":
+                # the executor disagrees with CPython on a concrete input: an engine fault, never a property verdict
+                out["errors"].append(f"executor/CPython cross-check differs for {r['target']}#{r['index']}: {r['detail']}")
+            continue
         if line.startswith("WITNESS "):
             got = True
             r = json.loads(line[len("WITNESS "):])
